@@ -2,7 +2,10 @@
    The four boost quadratures are external code (the Section variable I of the model); the driver instantiates
    them with a stand-in of its own: a composite 30-point Gauss-Legendre rule on 2 panels built from the model's
    gl_integrate.  Cases with a boost method are therefore compared at the accuracy of the method (checks/C13.py),
-   cases with libphysica's own back ends ("Gauss-Legendre_2", "Adaptive-Simpson") to rounding. *)
+   cases with libphysica's own back ends ("Gauss-Legendre_2", "Adaptive-Simpson") to rounding.
+   The user's function of a case is an expression, optionally defined through an integral ('@' part of the case line,
+   see harness/C13.cpp): then it calls the model's integrate_named itself; for the 1-D entry point this is the model's
+   integrate_reentrant, for the front ends (whose integrands are total functions in the model) the driver unwraps the result. *)
 open Common
 
 let ascii_of_char c =
@@ -41,8 +44,29 @@ let reset () = n := 0; digest := 0.0; Array.fill mn 0 3 infinity; Array.fill mx 
 let see k v = (if v < mn.(k) then mn.(k) <- v); (if v > mx.(k) then mx.(k) <- v)
 let put_rec dims = put_i !n; put_f !digest; for k = 0 to dims - 1 do put_f mn.(k); put_f mx.(k) done
 
+(* the user's function of a case *)
+exception Inner_stop of float res
+type user = { e : fexpr; inner : (method0 * z * fexpr * fexpr * fexpr) option }
+let parse_user r =
+  let e = parse_fexpr r in
+  if more r && r.toks.(r.pos) = "@" then begin
+    ignore (word r);
+    let im = parse_method (coq_string (word r)) in
+    let ip = z_of_int (integer r) in
+    let lo = parse_fexpr r in let hi = parse_fexpr r in let inn = parse_fexpr r in
+    { e; inner = Some (im, ip, lo, hi, inn) }
+  end else { e; inner = None }
+let eval_user u x y z : float =
+  match u.inner with
+  | None -> eval_fexpr u.e [| x; y; z; 0.0 |]
+  | Some (im, ip, lo, hi, inn) ->
+      let v = [| x; y; z; 0.0 |] in
+      (match integrate_named fops stand_in im (fun t -> Ok (eval_fexpr inn [| x; y; z; t |])) (eval_fexpr lo v) (eval_fexpr hi v) ip with
+       | Ok i -> eval_fexpr u.e [| x; y; z; i |]
+       | other -> raise (Inner_stop other))
+
 let put_res = function
-  | Ok v -> put_f v; true
+  | Ok v -> put_f v; put_f v; true
   | Exit -> put_w "EXIT"; false
   | OOB -> put_w "OOB"; false
   | Fuel -> put_w "FUEL"; false
@@ -52,36 +76,44 @@ let handler r =
   let m = parse_method (coq_string (word r)) in
   let p = z_of_int (integer r) in
   reset ();
+  try
   match op with
   | "named1d" ->
       let a = num r in let b = num r in
-      let e = parse_fexpr r in
-      let f x = incr n; digest := !digest +. x; see 0 x; Ok (eval_fexpr e [| x; 0.0; 0.0 |]) in
-      (match integrate_named fops stand_in m f a b p with
-       | Ok v -> put_f v; put_f v; put_rec 1
-       | Exit -> put_w "EXIT" | OOB -> put_w "OOB" | Fuel -> put_w "FUEL")
+      let u = parse_user r in
+      let res = match u.inner with
+        | None ->
+            let f x = incr n; digest := !digest +. x; see 0 x; Ok (eval_fexpr u.e [| x; 0.0; 0.0; 0.0 |]) in
+            integrate_named fops stand_in m f a b p
+        | Some (im, ip, lo, hi, inn) ->
+            let outer x i = incr n; digest := !digest +. x; see 0 x; eval_fexpr u.e [| x; 0.0; 0.0; i |] in
+            let inner x t = eval_fexpr inn [| x; 0.0; 0.0; t |] in
+            let flo x = eval_fexpr lo [| x; 0.0; 0.0; 0.0 |] and fhi x = eval_fexpr hi [| x; 0.0; 0.0; 0.0 |] in
+            integrate_reentrant fops stand_in m p im ip outer inner flo fhi a b in
+      if put_res res then put_rec 1
   | "nested2d" ->
       let x1 = num r in let x2 = num r in let y1 = num r in let y2 = num r in
-      let e = parse_fexpr r in
-      let f x y = incr n; digest := !digest +. (x +. 2.0 *. y); see 0 x; see 1 y; eval_fexpr e [| x; y; 0.0 |] in
+      let u = parse_user r in
+      let f x y = incr n; digest := !digest +. (x +. 2.0 *. y); see 0 x; see 1 y; eval_user u x y 0.0 in
       if put_res (integrate_2d fops stand_in no_mc m f x1 x2 y1 y2 p) then put_rec 2
   | "nested3d" ->
       let x1 = num r in let x2 = num r in let y1 = num r in let y2 = num r in let z1 = num r in let z2 = num r in
-      let e = parse_fexpr r in
+      let u = parse_user r in
       let f x y z = incr n; digest := !digest +. (x +. 2.0 *. y +. 3.0 *. z); see 0 x; see 1 y; see 2 z;
-        eval_fexpr e [| x; y; z |] in
+        eval_user u x y z in
       if put_res (integrate_3d fops stand_in no_mc m f x1 x2 y1 y2 z1 z2 p) then put_rec 3
   | "spherical" ->
       let r1 = num r in let r2 = num r in let c1 = num r in let c2 = num r in let f1 = num r in let f2 = num r in
-      let e = parse_fexpr r in
+      let u = parse_user r in
       let f x y z =
         incr n; digest := !digest +. (x +. 2.0 *. y +. 3.0 *. z);
         let nrm = sqrt (x *. x +. y *. y +. z *. z) in
         let az = Float.atan2 y x in
         let az = if az < 0.0 then az +. 2.0 *. Float.pi else az in
         see 0 nrm; see 1 (z /. nrm); (if x <> 0.0 || y <> 0.0 then see 2 az);
-        eval_fexpr e [| x; y; z |] in
+        eval_user u x y z in
       if put_res (integrate_3d_spherical fops stand_in no_mc m f r1 r2 c1 c2 f1 f2 p) then put_rec 3
   | o -> put_w ("MODELERR unknown_op_" ^ o)
+  with Inner_stop res -> Buffer.clear buf; first := true; ignore (put_res res)
 
 let () = run handler
